@@ -422,12 +422,18 @@ impl<TStdlib: Stdlib, TStdIn: Input, TStdOut: Printer, TLpt1: Printer>
             Instruction::BuiltInSub(s) => {
                 // the stacktrace should be already populated by Instruction::PushStack
                 debug_assert!(!self.stacktrace.is_empty());
-                super::built_ins::run_sub(s, self).with_stacktrace(&mut self.stacktrace)?;
+                if let Err(e) = super::built_ins::run_sub(s, self) {
+                    self.undo_push_stack();
+                    return Err(e).with_err_at(&pos);
+                }
             }
             Instruction::BuiltInFunction(f) => {
                 // the stacktrace should be already populated by Instruction::PushStack
                 debug_assert!(!self.stacktrace.is_empty());
-                super::built_ins::run_function(f, self).with_stacktrace(&mut self.stacktrace)?;
+                if let Err(e) = super::built_ins::run_function(f, self) {
+                    self.undo_push_stack();
+                    return Err(e).with_err_at(&pos);
+                }
             }
             Instruction::Label(_) => (), // no-op
             Instruction::Halt => {
@@ -572,6 +578,14 @@ impl<TStdlib: Stdlib, TStdIn: Input, TStdOut: Printer, TLpt1: Printer>
             }
         }
         Ok(())
+    }
+
+    /// A failing built-in never reaches the `PopStack` of its call template:
+    /// leave the context and the stack trace as they were before `PushStack`,
+    /// so that an error handler (and RESUME) runs in the caller's context.
+    fn undo_push_stack(&mut self) {
+        self.context.pop();
+        self.stacktrace.remove(0);
     }
 
     fn choose_printer(&mut self) -> &mut dyn Printer {
